@@ -42,6 +42,8 @@ type c06Case struct {
 	HostPaced  bool // the host's writes come one by one after the client's packets (an empty one is an empty write)
 	HostStalls int  // > 0: the host reads nothing (send window of that many bytes) until after the client's packet number HostResume
 	HostResume int
+	// SplitChunk: legacy: every chunk arrives as size line, data, CRLF in separate transport reads
+	SplitChunk bool
 }
 
 func c06Run(c c06Case, rep *Report) (viol, detail string) {
@@ -51,9 +53,10 @@ func c06Run(c c06Case, rep *Report) (viol, detail string) {
 	}
 	segs := c06Setup()
 	cfg.BackendWindow = c.HostStalls
+	cfg.Segmented = c.SplitChunk
 	if c.Split == nil {
 		for i, p := range c.ClientPkts {
-			segs = append(segs, Seg{Bytes: p, NoWait: c.Burst})
+			segs = append(segs, Seg{Bytes: p, NoWait: c.Burst, SplitChunk: c.SplitChunk})
 			if c.HostStalls > 0 && i+1 == c.HostResume {
 				segs = append(segs, Seg{Action: "deadlines"}, Seg{Action: "hostdrain"})
 			}
@@ -87,6 +90,19 @@ func c06Run(c c06Case, rep *Report) (viol, detail string) {
 	}
 	if !res.Opened || len(res.Steps) < 5 {
 		return "setup-failed", ""
+	}
+	// paced client packets: when the gateway has nothing left to do after a packet, that packet's payload is at the
+	// host (nothing is kept back until more traffic arrives)
+	if c.Split == nil && !c.Burst && c.HostStalls == 0 && !c.HostPaced {
+		base := len(c06Setup())
+		for i, d := range c.Declared {
+			if d == nil || base+i >= len(res.Steps) {
+				break
+			}
+			if got := res.Steps[base+i].BackendNew; !bytes.Equal(got, d) {
+				return "payload-not-at-the-host-when-the-gateway-is-idle", fmt.Sprintf("client packet %d declares %d bytes; when the gateway had nothing left to do the host had received %d bytes of it", i, len(d), len(got))
+			}
+		}
 	}
 	// host side
 	var hostGot []byte
@@ -295,6 +311,16 @@ func c06(env *Env, rep *Report) {
 					}
 					cases = append(cases, c06Case{Name: fmt.Sprintf("length-field-%d-carries-%d", l, a), Kind: kind, ClientPkts: [][]byte{tsgu.DataRaw(uint16(l), p), hp}, Declared: [][]byte{decl, hd}, Carried: [][]byte{p, hd}})
 				}
+			}
+		}
+		if kind == "legacy" {
+			// packets whose total size is the gateway's read size (4096), twice it, and one off, arriving as
+			// chunk size line / data / CRLF in separate reads, alone and followed by a small packet
+			for _, a := range []int{4085, 4086, 4087, 8181, 8182, 8183} {
+				pa, da := mk(a, 3)
+				pb, db := mk(5, 4)
+				cases = append(cases, c06Case{Name: fmt.Sprintf("single-%d-chunk-in-pieces", a), Kind: kind, ClientPkts: [][]byte{pa}, Declared: [][]byte{da}, SplitChunk: true})
+				cases = append(cases, c06Case{Name: fmt.Sprintf("pair-%d-5-chunk-in-pieces", a), Kind: kind, ClientPkts: [][]byte{pa, pb}, Declared: [][]byte{da, db}, SplitChunk: true})
 			}
 		}
 		hs := []int{1, 4086, 4087, 8192, 65535}
